@@ -69,6 +69,10 @@ type Scenario struct {
 	Base     string      `json:"base,omitempty"`
 	Setup    []Op        `json:"setup,omitempty"`
 	Variants []Variant   `json:"variants,omitempty"`
+	// LinkedRoot: the module is reached through a path one component of which is a symbolic link (a
+	// workspace on another volume, /tmp on macOS, a linked home directory); every path the harness uses
+	// is the spelling with the link.
+	LinkedRoot bool `json:"linked_root,omitempty"`
 	Infl     *InflCase   `json:"infl,omitempty"`
 	// UniformGens: every run of the history uses the same generators, scripts and globals, so the final
 	// state of every local package is determined by the spec alone (C07-T5).
